@@ -44,13 +44,13 @@ def move_groups(tier, props=("C08", "C09", "C10", "C11")):
     for nc in (60, 128, 190, 640):
         add("_ADD", m3(2, nc, "owned", "owned", "owned"), "2x%d.owned-owned-owned" % nc, unwind=(nc + 63) // 64 + 8)
     for alias in (1, 2, 3, 4):
-        for nc in ((70, 600) if q else (1, 64, 70, 200, 600, 700)):
+        for nc in ((70, 380) if q else (1, 64, 70, 200, 380, 600, 700)):
             for k in ("owned", "view1"):
-                d = m3(2, nc, None, k, k)
-                d.pop("DNULL")
+                d = m3(2, nc, k if alias == 3 else None, k, k)
+                d.pop("DNULL", None)
                 d["ALIAS"] = alias
                 add("_ADD", d, "2x%d.alias%d.%s" % (nc, alias, k), unwind=(nc + 63) // 64 + 8)
-    for nc in (70, 130, 600):
+    for nc in (70, 130, 380):
         add("ADD", m3(2, nc, None, "view1", "owned"), "2x%d.null-view1-owned" % nc, unwind=20)
     add("ADD", m3(2, 70, "view1", "owned", "view0"), "2x70.view1-owned-view0", unwind=20)
 
